@@ -22,6 +22,8 @@ type paramInfo struct {
 	typ      string
 	asValue  bool // pointer passed as its pointee (NonNil)
 	inout    bool // map parameter mutated by the callee: its new value is returned first
+	errRecv  bool // oracle method of an error type: the receiver is the error found by errors.As (an err)
+	consumed bool // in/out parameter that the callee also reassigns (to a map it creates): the caller's variable must be dead after the call
 	dropped  bool
 	callback bool       // the callback parameter of an oracle (Target.Callback)
 	goType   types.Type // oracles: the type the argument is converted to (the static type of the call site for an `any` parameter)
@@ -39,8 +41,31 @@ type fnInfo struct {
 	variadic bool // the last parameter collects the remaining arguments (a list)
 	drop     bool
 	cbPage   string // oracle with a callback: the Coq type of one page
+	walkEnt  string // Walk oracle: the Coq type of a directory entry (content of fs.DirEntry)
 	freshRes bool   // oracle whose results are freshly allocated (Target.FreshResults)
 	effect   bool   // takes the world first and returns the new world first
+}
+
+// asInfo: errors.As(errExpr, &v) whose target v is used afterwards as the receiver of oracle methods.
+type asInfo struct {
+	errExpr ast.Expr
+	typ     string
+	pos     token.Pos
+}
+
+// recvIsError: the receiver type (or its pointee) is a struct type with an Error method.
+func recvIsError(t types.Type) bool {
+	if p, ok := t.(*types.Pointer); ok {
+		t = p.Elem()
+	}
+	n, ok := types.Unalias(t).(*types.Named)
+	if !ok {
+		return false
+	}
+	if _, isStruct := n.Underlying().(*types.Struct); !isStruct {
+		return false
+	}
+	return implementsError(n)
 }
 
 // rebinds: a call of the function rebinds variables of the caller (in/out arguments, the world).
@@ -88,9 +113,14 @@ type fn struct {
 	repl    map[types.Object]*types.Var
 	replOf  map[types.Object]types.Object
 
-	msgOnly    map[types.Object]bool // local strings that only become messages (msgOnlyVar)
-	rawNilable bool                  // selector(): give the option of a nilable field, not its reading
-	storeOpt   bool                  // store(): the new value of a nilable field is already an option
+	msgOnly       map[types.Object]bool    // local strings that only become messages (msgOnlyVar)
+	litState      []*types.Var             // funcLit: variables the literal assigns, threaded as its state (walkCall)
+	litForceOpt   bool                     // funcLit: translate the literal as option-valued
+	asTarget      map[types.Object]*asInfo // errors.As targets looked at afterwards through oracle methods
+	consumedParam map[types.Object]bool    // map parameters written and reassigned to fresh maps
+	ownedAt       map[ast.Expr]bool        // map expressions of writes that the flow analysis found owned (golite_flow.go)
+	rawNilable    bool                     // selector(): give the option of a nilable field, not its reading
+	storeOpt      bool                     // store(): the new value of a nilable field is already an option
 
 	// effects
 	effect     bool                  // the function takes and returns the world
@@ -313,7 +343,7 @@ func (g *gen) funcInstance(obj *types.Func, targs []types.Type, anyArgs ...types
 				if sig.Params().At(i).Name() == n {
 					found = true
 					if i >= len(anyArgs) || anyArgs[i] == nil {
-						g.fail("%s: parameter %s (InstantiateAny) needs an argument with a static non-interface type at every call site; the function cannot be a root of the table", label, n)
+						it.silent = true // the plain form: the parameter stays an `any` value
 					}
 				}
 			}
@@ -328,6 +358,17 @@ func (g *gen) funcInstance(obj *types.Func, targs []types.Type, anyArgs ...types
 					panic(unsup{u.msg + " (in " + g.L.pos(fd.decl.Pos(), fd.pkg) + ")"})
 				}
 				panic(r)
+			}
+		}()
+		nItems := len(g.items)
+		defer func() {
+			if it.silent {
+				// what the silent plain form dragged in and could not be translated stays silent too
+				for _, x := range g.items[nItems:] {
+					if x.status == "unsupported" {
+						x.silent = true
+					}
+				}
 			}
 		}()
 		c.translate(it)
@@ -365,6 +406,16 @@ func (g *gen) oracleFunc(it *item, fi *fnInfo, obj *types.Func, sig *types.Signa
 			pidx++
 		}
 		switch {
+		case t.Walk != "" && p.Name() == t.Walk:
+			csig, ok := resolve(pt, sub).Underlying().(*types.Signature)
+			if !ok || csig.Params().Len() != 3 || csig.Results().Len() != 1 ||
+				g.kind(csig.Params().At(0).Type(), sub) != kString || g.kind(csig.Params().At(1).Type(), sub) != kNilable ||
+				!g.isOpaqueIface(csig.Params().At(1).Type(), sub) || g.kind(csig.Params().At(2).Type(), sub) != kError ||
+				g.kind(csig.Results().At(0).Type(), sub) != kError {
+				g.fail("Walk: parameter %s of %s must be a func(path string, d fs.DirEntry, err error) error, with fs.DirEntry declared Opaque and Nilable", p.Name(), fi.label)
+			}
+			fi.walkEnt = g.opaqueContent(csig.Params().At(1).Type(), sub)
+			pi.callback, pi.dropped = true, true
 		case t.Callback != "" && p.Name() == t.Callback:
 			csig, ok := resolve(pt, sub).Underlying().(*types.Signature)
 			if !ok || csig.Results().Len() != 1 || g.kind(csig.Results().At(0).Type(), sub) != kError || csig.Variadic() {
@@ -386,6 +437,11 @@ func (g *gen) oracleFunc(it *item, fi *fnInfo, obj *types.Func, sig *types.Signa
 				fi.cbPage = "(" + strings.Join(pts, " * ") + ")"
 			}
 			pi.callback, pi.dropped = true, true
+		case recv && !isIface && !drop[p.Name()] && recvIsError(pt):
+			// a method of an error type: the oracle is a function of the error value (the one errors.As found)
+			pi.typ = "err"
+			pi.errRecv = true
+			ptypes = append(ptypes, pi.typ)
 		case recv && isIface && g.isOpaqueIface(pt, sub) && !drop[p.Name()] && !t.AnyReceiver:
 			// a method of an interface type declared Opaque: the oracle depends on the (non-nil) receiver
 			pi.typ = g.opaqueContent(pt, sub)
@@ -439,6 +495,16 @@ func (g *gen) oracleFunc(it *item, fi *fnInfo, obj *types.Func, sig *types.Signa
 			fi.fresh[i] = true
 		}
 		g.note("oracle " + fi.label + " returns freshly allocated objects nobody else refers to (FreshResults)")
+	}
+	if t.Walk != "" {
+		if fi.walkEnt == "" {
+			g.fail("Walk: %s has no parameter %s", fi.label, t.Walk)
+		}
+		if sig.Results().Len() != 1 || g.kind(sig.Results().At(0).Type(), sub) != kError || len(outTypes) > 0 || t.Effect || t.Callback != "" {
+			g.fail("Walk: the oracle %s must return exactly an error (and be neither Effect nor Callback)", fi.label)
+		}
+		fi.resType = "((walk_tree " + fi.walkEnt + ") + err)"
+		g.note("oracle " + fi.label + " supplies what the walk sees as a tree (entries in the order ReadDir gives them); the walk is GoLib's walk_dir, the library's algorithm with the fs.SkipDir / fs.SkipAll protocol")
 	}
 	if fi.cbPage != "" {
 		if sig.Results().Len() != 1 || g.kind(sig.Results().At(0).Type(), sub) != kError || len(outTypes) > 0 {
@@ -861,7 +927,22 @@ func (c *fn) analyse() {
 	for o, rhss := range assigns {
 		if params[o] {
 			if mutatedParams[o] {
-				c.fail(c.decl, "parameter %s is both written through and reassigned", o.Name())
+				// reassigned only to maps created here: what the caller gets back is the final map, which is
+				// the caller's own map only on the paths without reassignment; the caller must not look at its
+				// variable again (checked at the call sites)
+				allFresh := c.g.kind(o.Type(), c.sub) == kMap
+				for _, r := range rhss {
+					if r == nil || !c.isCreation(r) {
+						allFresh = false
+					}
+				}
+				if !allFresh {
+					c.fail(c.decl, "parameter %s is both written through and reassigned", o.Name())
+				}
+				if c.consumedParam == nil {
+					c.consumedParam = map[types.Object]bool{}
+				}
+				c.consumedParam[o] = true
 			}
 			continue
 		}
@@ -997,6 +1078,10 @@ func (c *fn) analyse() {
 				c.fail(c.decl, "the function writes through pointer parameter %s, which may be nil (declare the target NonNil)", p.Name())
 			}
 			pi.inout = true
+			pi.consumed = c.consumedParam[p]
+			if pi.consumed {
+				c.g.note(fmt.Sprintf("%s: map parameter %s is written and also replaced by a map created there: callers must not use their variable after the call (checked)", c.fi.label, p.Name()))
+			}
 			c.inout = append(c.inout, p)
 			c.isInout[p] = true
 			c.mutable[p] = true
@@ -1092,6 +1177,7 @@ func (c *fn) translate(it *item) {
 		c.partial = partial
 		c.worldObj, c.synthIdent, c.noEffect, c.deferred, c.deferRet = nil, map[*ast.Ident]string{}, 0, nil, nil
 		c.activeLink, c.linkBusy = map[types.Object]string{}, map[*ast.AssignStmt]bool{}
+		c.asTarget, c.msgOnly, c.ownedAt, c.consumedParam = nil, nil, nil, nil
 		c.names = map[types.Object]string{}
 		c.used = map[string]bool{}
 		c.nfresh = 0
@@ -2148,10 +2234,16 @@ func (c *fn) funcLit(lit *ast.FuncLit) (cx, bool) {
 	if c.decl == nil {
 		c.fail(lit, "function literal in a package-level initialiser")
 	}
+	litState := c.litState
+	c.litState = nil
+	isState := map[types.Object]bool{}
+	for _, o := range litState {
+		isState[o] = true
+	}
 	pos := c.assignPositions()
 	loops := c.enclosingLoops(lit)
 	for _, o := range c.captured(lit) {
-		if c.g.kind(o.Type(), c.sub) == kDropped {
+		if c.g.kind(o.Type(), c.sub) == kDropped || isState[o] {
 			continue
 		}
 		for _, p := range pos[o] {
@@ -2216,7 +2308,7 @@ func (c *fn) funcLit(lit *ast.FuncLit) (cx, bool) {
 				panic(r)
 			}
 		}()
-		c.sig, c.partial, c.inout, c.breakK, c.contK, c.loopDepth = sig, partial, nil, nil, nil, 0
+		c.sig, c.partial, c.inout, c.breakK, c.contK, c.loopDepth = sig, partial, append([]*types.Var{}, litState...), nil, nil, 0
 		c.namedRes = nil
 		res := sig.Results()
 		for i := 0; i < res.Len(); i++ {
@@ -2228,12 +2320,27 @@ func (c *fn) funcLit(lit *ast.FuncLit) (cx, bool) {
 			c.fail(lit, "partly named results are not supported")
 		}
 		rt := c.g.tupleType(res, c.sub)
+		if len(litState) > 0 {
+			var parts []string
+			for _, o := range litState {
+				parts = append(parts, c.varType(o))
+			}
+			for i := 0; i < res.Len(); i++ {
+				parts = append(parts, c.g.typ(res.At(i).Type(), c.sub))
+			}
+			rt = "(" + strings.Join(parts, " * ") + ")"
+		}
 		c.fi.resType = rt
 		c.retType = rt
 		if partial {
 			c.retType = "(option " + rt + ")"
 		}
 		var params []string
+		for _, o := range litState {
+			// the variables the literal assigns are its state: parameters, returned first
+			params = append(params, fmt.Sprintf("(%s : %s)", c.nameOf(o), c.varType(o)))
+			delete(c.views, o)
+		}
 		for i := 0; i < sig.Params().Len(); i++ {
 			p := sig.Params().At(i)
 			if c.g.kind(p.Type(), c.sub) == kDropped {
@@ -2260,6 +2367,11 @@ func (c *fn) funcLit(lit *ast.FuncLit) (cx, bool) {
 		}
 		body := c.scoped(func() string { return c.block(lit.Body.List, end) })
 		return "(fun " + strings.Join(params, " ") + " => " + pre + body + ")", false
+	}
+	if c.litForceOpt {
+		c.litForceOpt = false
+		text, _ := run(true)
+		return cx{s: text}, true
 	}
 	text, again := run(false)
 	isOpt := false
